@@ -93,7 +93,8 @@ def check_table(res, df, obj, labels, flags, detail, where):
         res.fail(f'{where}/index', f'{detail}: index {list(df.index)!r}, span {labels!r}')
         return
     for c in want_cols:
-        series = np.asarray(obj[c])
+        # (read from the object's storage, not through obj[c]: the item interface is itself code under examination)
+        series = np.asarray(obj.__dict__['_' + c])
         col = df[c]
         vals = col.to_numpy()
         if not all(same_value(a, b) for a, b in zip(vals.tolist(), series.tolist())):
@@ -139,6 +140,28 @@ def check_model(case):
                 return res
             check_table(res, out.value, m, labels, dict(EXPORT_DEFAULTS, **given),
                         f'{text!r} span={labels!r} only {given} passed', where + '-defaults')
+    # an exported table is a record of the values at export time: later changes of the model (in place, as a solve makes
+    # them) do not reach it
+    if labels:
+        for where, fn in (('to_dataframe', lambda: m.to_dataframe(include_internal=True)),
+                          ('model_to_dataframe', lambda: tools.model_to_dataframe(m, include_internal=True))):
+            kept = attempt(fn)
+            if not kept.ok:
+                continue
+            record = kept.value.copy(deep=True)
+            saved = {}
+            for nm in list(m.names) + ['iterations']:
+                arr = m.__dict__['_' + nm]
+                if arr.dtype.kind in 'fiub':
+                    saved[nm] = arr[0].copy()
+                    getattr(m, nm)[0] = (not arr[0]) if arr.dtype.kind == 'b' else arr[0] + 3
+            same = kept.value.equals(record)
+            for nm, v in saved.items():
+                getattr(m, nm)[0] = v
+            if saved and not same:
+                res.fail(f'{where}/table-follows-later-changes', f'{text!r} span={labels!r}: the table exported earlier changed when '
+                         f'the model\'s values were changed afterwards')
+                return res
     # import: the data columns of the model's own variables
     df = m.to_dataframe(status=False, iterations=False, include_internal=True)
     data = df[[c for c in M.NAMES]]
